@@ -88,6 +88,8 @@ def generate(rng, tier):
         weights = [B.pos_weights(rng, npts) for _ in range(ncomp)] if mode in ("unc", "wvar") else None
         if mode.endswith("-constw"):     # all data share one uncertainty / unit weights: still "weights given"
             weights = [[rng.choice([1.0, 0.25, 4.0])] * npts for _ in range(ncomp)]
+        elif weights is not None and rng.random() < 0.3:
+            weights = [[float(rng.choice([1, 1, 4, 9, 16, 25])) for _ in range(npts)] for _ in range(ncomp)]      # whole numbers (handed over as an integer array, see impl)
         shape2d = [npts]
         if npts % 2 == 0 and rng.random() < 0.3:
             shape2d = [2, npts // 2]
@@ -126,6 +128,8 @@ def impl(case):
     cs = tuple(C.mkarr(c, shape2d, f"{key}c{i}") for i, c in enumerate(coords))
     ds = tuple(C.mkarr(d, shape2d, f"{key}d{i}") for i, d in enumerate(data))
     ws = None if weights is None else tuple(C.mkarr(w, shape2d, f"{key}w{i}") for i, w in enumerate(weights))
+    if ws is not None and all(float(v).is_integer() for w in weights for v in w) and any(v != 1 for w in weights for v in w):
+        ws = tuple(np.asarray(w).astype("int64" if (len(weights[0]) + i) % 2 else "int32") for i, w in enumerate(ws))      # 1/sigma^2 kept as whole numbers
     for arr in cs + ds + (ws or ()):
         arr.setflags(write=False)
     bm = vd.BlockMean(spacing=spacing, region=region, adjust=adjust, center_coordinates=centre, uncertainty=unc, shape=shape, drop_coords=drop)
